@@ -12,6 +12,12 @@
                    id = 0: the record's content is not the content of an input record
             histreq, hist   --read-lengths-histogram was given; its rows
 
+   Read names are interned by the driver (name = the number of the abstract name,
+   99 = a name that is none of the scenario's), whatever their spelling in the
+   files is (read<n>, PacBio-style, or any string over the QNAME alphabet [!-?A-~]
+   including quotes, hash, comma, semicolon, backslash): Routing judges the run by
+   the list as a plain tab-separated table of those names.
+
    One clause per sentence of the property (names = vocabulary of reports).
    --only-largest-block is a relation: a selection under which the routing (and
    the histogram) is right is looked for; if there is none, one that explains the
